@@ -102,6 +102,7 @@ def run_family(rep, name, programs, item_defaults=None, accept_unsupported_is_vi
     for r in recs:
         v = r["verdict"]
         rep.count_query(v)
+        rep.note_xsolver(r)
         extra = {k: r[k] for k in ("c", "il", "model", "bad", "il_final", "c_final", "fmt", "hyb", "contract_dependent")
                  if k in r}
         key = r["key"]
